@@ -197,6 +197,31 @@ Theorem C10_close_unstarted_fixed_witness :
 Proof. exact d16_fixed_witness. Qed.
 Print Assumptions C10_close_unstarted_fixed_witness.
 
+(** Stop() is usable whoever sits inside handlersLock: it takes no lock, both of its steps are enabled in EVERY
+    state (seeded change C10-G made Stop wait for handlersLock). *)
+Theorem C10_stop_never_blocks : forall s t h a,
+  thr s t = TStopRead h a \/ thr s t = TStopCall h a -> step s (LT t CStep) <> None.
+Proof. exact stop_never_blocks. Qed.
+Print Assumptions C10_stop_never_blocks.
+
+(** Run returns an error only right after a Subscribe failed - a Run context that is already cancelled is no
+    reason (seeded change C10-H): the step that makes Run return the error leaves the pc "Subscribe failed", and
+    that pc is entered only by a step that emits ASubscribe h false. *)
+Theorem C10_run_error_only_after_failed_subscribe : forall s l s' evs,
+  step s l = Some (s', evs) ->
+  (mainp s' = RDone false -> mainp s <> RDone false -> mainp s = RRH HFail \/ mainp s = RRH HCheck)
+  /\ (mainp s' = RRH HFail -> mainp s <> RRH HFail -> exists h, l = LMain (CPick h false) /\ evs = [ASubscribe h false]).
+Proof. exact run_error_only_after_failed_subscribe. Qed.
+Print Assumptions C10_run_error_only_after_failed_subscribe.
+
+(** ... and with the context cancelled BEFORE Run: everything is subscribed, the router closes itself, Run returns nil *)
+Theorem C10_cancel_before_run_witness :
+  let s := run (rinit true true true true) cancel_first_schedule in
+  mainp s = RDone true /\ runningCh s = true /\ h_subs (hs s 0) = 1 /\ h_stoppedCh (hs s 0) = true
+  /\ verdict (hist (rinit true true true true) cancel_first_schedule) = 0.
+Proof. exact cancel_before_run_witness. Qed.
+Print Assumptions C10_cancel_before_run_witness.
+
 (** A second Run returns an error: no Run call other than the first to pass the check ever
     returns nil or gets inside; isRunning is set as soon as the first one passed. *)
 Theorem C10_second_run_errors : forall (f4 f14 f15 f16 : bool) (ls : list label),
